@@ -21,6 +21,9 @@ Bad == F("StopTerminates", {i \in Steps : ~StopP(St(i-1), St(i), E(i)) \/ ~Relea
   \cup F("ResumeFromTip", {i \in Steps : ~ResumeP(St(i-1), St(i), E(i))})
   \cup F("NoReannounce", {i \in Lines : ~Consecutive(Tr[i].st.hdrs)} \cup {i \in Steps : ~NoReannounceP(St(i-1), St(i), E(i))})
   \cup F("PhaseOrder", {i \in Lines : ~OrderP(St(i))})
+  \cup F("FeedSafe", {i \in Lines : LET f == Tr[i].st.feed IN           \* a client thread submitting transactions during a shutdown: never a panic,
+          \/ (Len(f) >= 5 /\ SubSeq(f, 1, 5) = "PANIC")                     \* and once Stop has returned its call has returned too
+          \/ (Tr[i].st.stopRet /\ f = "blocked")})
   \cup F("NoPanic", {i \in Lines : Len(Tr[i].skip) >= 5 /\ SubSeq(Tr[i].skip, 1, 5) = "PANIC"})
 ASSUME JsonSerialize("props_result.json", [lines |-> Len(Tr), bad |-> Bad])
 PSpec == Init /\ [][UNCHANGED vars]_vars
